@@ -157,6 +157,30 @@ Theorem C17_response_first_target_wins :
 Proof. exact resp_first_target_wins. Qed.
 Print Assumptions C17_response_first_target_wins.
 
+(* ---- the body map of a JSON request (the source behind api.body and the last seeking step) ---- *)
+(* GetMapBody(k) must be the DENOTED string of body member k (escapes resolved by the proved parser, Json.json_parse_print /
+   unquote_quote_ref), resp. the printed value of a non-string member; check 1701 compares the implementation's getter with it *)
+Theorem C17_body_map_member :
+  forall ms k j, find_member k ms = Some j ->
+  assoc k (body_map ms) = match j with JStr x => x | _ => json_print j end.
+Proof.
+  induction ms as [|m r IH]; intros k j H.
+  - discriminate.
+  - destruct m as [k' x]. unfold find_member in H. simpl in H.
+    simpl. destruct (zlist_eqb k k') eqn:E.
+    + simpl in H. inversion H; subst. destruct j; reflexivity.
+    + apply IH. exact H.
+Qed.
+Print Assumptions C17_body_map_member.
+
+Example C17_example_body_map :
+  (* an object with member a = string literal x, escaped solidus, u00e9 escape, newline escape, escaped quote; member n = array [1, escaped solidus string] *)
+  json_parse [123;34;97;34;58;34;120;92;47;92;117;48;48;101;57;92;110;92;34;34;44;34;110;34;58;91;49;44;34;92;47;34;93;125]
+  = Some (JObj [([97], JStr [120;47;195;169;10;34]); ([110], JArr [JNum [49]; JStr [47]])]) /\
+  assoc [97] (body_map [([97], JStr [120;47;195;169;10;34]); ([110], JArr [JNum [49]; JStr [47]])]) = [120;47;195;169;10;34] /\
+  assoc [110] (body_map [([97], JStr [120;47;195;169;10;34]); ([110], JArr [JNum [49]; JStr [47]])]) = [91;49;44;34;47;34;93].
+Proof. vm_compute. repeat split; reflexivity. Qed.
+
 (* ---- the recorded deviations really contradict the specification (quirk models differ from Spec) ---- *)
 Definition ex_o (wr wd wo rhf tb : bool) : hopts := mkOpts wr wd wo rhf tb false false false false.
 Definition s (l : list Z) := l.
